@@ -1,10 +1,12 @@
 import Driver.Util
 import Driver.Suites.Blocks
 import Driver.Suites.Tier
+import Driver.Suites.Trkwire
 /-! Table of suites known to the driver.  One line per suite (merge=union friendly). -/
 namespace Driver
 def registry : List Suite := [
   Suites.Blocks.suite,
   Suites.Tier.suite,
+  Suites.Trkwire.suite,
 ]
 end Driver
